@@ -19,7 +19,6 @@ import (
 	"io"
 	"os"
 	"path/filepath"
-	"runtime/pprof"
 	"sort"
 	"strings"
 
@@ -45,12 +44,13 @@ func sortedKeys(m map[string]bool) []string {
 var views = []string{"text", "md", "doc"}
 
 type checker struct {
-	e   *harness.Env
-	dir string
+	e    *harness.Env
+	dir  string
+	nsig map[string]int // failures seen per signature (this worker)
 }
 
 func run(e *harness.Env) {
-	e.Rule = "documents: (A) every sequence of 1..3 body blocks over the full block alphabet of each format (DOCX 33 letters, ODT 29 letters), all optional parts present " +
+	e.Rule = "documents: (A) every sequence of 1..3 body blocks over the full block alphabet of each format (DOCX 32 letters, ODT 29 letters; listed in docx_alphabet / odt_alphabet), all optional parts present " +
 		"(quick: length-3 sequences with at most one letter outside the structural sub-alphabet); " +
 		"(B, thorough) every sequence of 4 blocks over the structural sub-alphabet (letters whose effect crosses block boundaries: plain / empty paragraph, headings, list items, tables, block-level content control) " +
 		"and every sequence of 4 blocks with at most 2 letters other than the plain paragraph over the full alphabet; " +
@@ -62,13 +62,7 @@ func run(e *harness.Env) {
 		"a style based on a heading style is a heading of the inherited level; text:h/@text:outline-level is the heading level of an ODT heading",
 		"Markdown structure is read line-wise (ATX heading, pipe row, list marker + indentation); the GFM-parser reading belongs to C15",
 	}
-	c := &checker{e: e}
-	if pf := os.Getenv("C16_PROF"); pf != "" { // development aid only
-		if f, err := os.Create(pf); err == nil {
-			pprof.StartCPUProfile(f)
-			defer pprof.StopCPUProfile()
-		}
-	}
+	c := &checker{e: e, nsig: map[string]int{}}
 	base := os.TempDir()
 	if cf := os.Getenv("VERIF_CURFILE"); cf != "" {
 		base = filepath.Dir(cf)
@@ -377,7 +371,13 @@ func (c *checker) evaluate(base, only, format, mode string, ms []zipw.Member, x 
 			case whole != nil:
 				e.Fail(d, whole.sig, whole.detail, files)
 			case f != nil:
-				e.Fail(d, f.sig, f.detail+"\n"+out, files)
+				// full output dump only for the first failures of a signature (report size)
+				c.nsig[f.sig]++
+				if c.nsig[f.sig] <= 25 {
+					e.Fail(d, f.sig, f.detail+"\n"+out, files)
+				} else {
+					e.Fail(d, f.sig, f.detail, nil)
+				}
 			default:
 				e.Pass(d, nontrivial, class)
 			}
